@@ -42,12 +42,14 @@ def register(reg):
         requires=[('heights', 'forall(lambda j=Int: implies(0 <= j and j < len(undo_infos), 0 <= undo_infos[j][1] and undo_infos[j][1] < 4294967296))')],
         raises={}, assumes_inv=False, maintains_inv=False, modifies=['gb.g_ops'],
         ensures=[('every-block-gets-its-undo-row', 'forall(lambda j=Int: implies(0 <= j and j < len(undo_infos), '
-                                                   'concat(b"U", beu_enc(undo_infos[j][1], 4)) in gb.g_ops))'),
+                                                   'concat(b"U", beu_enc(undo_infos[j][1], 4)) in gb.g_ops and '
+                                                   'not is_none(lookup(gb.g_ops, concat(b"U", beu_enc(undo_infos[j][1], 4))))))'),
                  ('only-undo-rows', 'forall(lambda k=Bytes: implies(not (exists(lambda j=Int: 0 <= j and j < len(undo_infos) and '
                                     'k == concat(b"U", beu_enc(undo_infos[j][1], 4)))), (k in gb.g_ops) == (k in old(gb.g_ops)) and '
                                     'implies(k in gb.g_ops, lookup(gb.g_ops, k) == lookup(old(gb.g_ops), k))))')],
         loops={0: LoopSpec('for undo_info, height in undo_infos',
-                           invariants=[('done', 'forall(lambda j=Int: implies(0 <= j and j < _i, concat(b"U", beu_enc(undo_infos[j][1], 4)) in gb.g_ops))'),
+                           invariants=[('done', 'forall(lambda j=Int: implies(0 <= j and j < _i, concat(b"U", beu_enc(undo_infos[j][1], 4)) in gb.g_ops and '
+                                                'not is_none(lookup(gb.g_ops, concat(b"U", beu_enc(undo_infos[j][1], 4))))))'),
                                        ('only', 'forall(lambda k=Bytes: implies(not (exists(lambda j=Int: 0 <= j and j < _i and '
                                                 'k == concat(b"U", beu_enc(undo_infos[j][1], 4)))), (k in gb.g_ops) == (k in old(gb.g_ops)) and '
                                                 'implies(k in gb.g_ops, lookup(gb.g_ops, k) == lookup(old(gb.g_ops), k))))')],
@@ -65,6 +67,11 @@ def register(reg):
                  ('history-db-untouched', 'self.history.db.g_commits == old(self.history.db.g_commits) and '
                                           'self.history.db.g_map == old(self.history.db.g_map)'),
                  ('state-with-the-rows', 'b"state" in self.utxo_db.g_map and lookup(self.utxo_db.g_map, b"state") == ' + REC),
+                 # whatever the mode the database is open in (syncing or serving): the undo information of every flushed block is
+                 # part of the same commit
+                 ('undo-information-committed-with-the-rows',
+                  'forall(lambda j=Int: implies(0 <= j and j < len(old(flush_data.undo_infos)), '
+                  'concat(b"U", beu_enc(old(flush_data.undo_infos)[j][1], 4)) in self.utxo_db.g_map))'),
                  ('state-adopted', 'self.state.height == flush_data.state.height and self.state.tx_count == flush_data.state.tx_count and '
                                    'self.state.flush_count == flush_data.state.flush_count and self.state.utxo_count == flush_data.state.utxo_count'
                                    ' and self.state.tip == flush_data.state.tip'),
@@ -74,7 +81,7 @@ def register(reg):
                            modifies=['batch.g_ops']),
                1: LoopSpec('for key, value in flush_data.adds.items()', invariants=[('no-commit-yet', 'self.utxo_db.g_commits == old(self.utxo_db.g_commits)')],
                            modifies=['batch.g_ops'])},
-        props=['C04', 'C05', 'C01'])
+        props=['C04', 'C05', 'C01', 'C15'])
 
     # ---- DB.flush_backup: order of the two commits of a backed-up block (C05, C03) -------------------------------------------
     HIST = 'electrumx/server/history.py:History'
